@@ -49,7 +49,7 @@ def oracle(cases, results):
             singles.append(single); where.append((i, j))
     fresh = impl.run_cases(singles, fresh=True)
     def key(r):
-        r = {k: v for k, v in r.items() if k not in ('id', 'msg', 'cfgNow', 'cfgAfter')}
+        r = {k: v for k, v in r.items() if k not in ('id', 'msg', 'cfgNow', 'cfgAfter', 'slow')}
         return json.dumps(r, sort_keys=True, default=str)
     seen = set()
     for (i, j), fr in zip(where, fresh):
